@@ -32,7 +32,6 @@ func zzWriteCheck(p ControlPacket, mode int) {
 	n0, err0 := p.WriteTo(&ok)
 	zzReach("write")
 	zzAssert(err0 == nil, "WriteTo reports an error although the writer accepted everything")
-	zzAssert(ok.calls == 1, "WriteTo must call Write exactly once")
 	zzAssert(int(n0) == len(ok.b), "the returned count differs from the number of bytes written")
 	zzOneFrameBytes(ok.b)
 	sz, found := zzStrIntBefore(p.String(), " bytes")
@@ -46,14 +45,14 @@ func zzWriteCheck(p ControlPacket, mode int) {
 	case 1:
 		w := &zzFailW{e: e}
 		n, err := p.WriteTo(w)
-		zzAssert(w.calls == 1, "WriteTo must call Write exactly once")
+		zzAssert(w.calls <= 1, "WriteTo keeps writing after the writer reported an error")
 		zzAssert(err == error(e), "WriteTo does not return the writer's error")
 		zzAssert(n == 0, "WriteTo reports bytes although the writer accepted none")
 	case 2:
 		k := zzInt("k", 0, len(ok.b)-1)
 		w := &zzShortW{k: k, e: e}
 		n, err := p.WriteTo(w)
-		zzAssert(w.calls == 1, "WriteTo must call Write exactly once")
+		zzAssert(w.after == 0, "WriteTo keeps writing after the writer reported an error")
 		zzAssert(err == error(e), "WriteTo does not return the writer's error")
 		zzAssert(int(n) == k, "WriteTo does not report the number of bytes the writer accepted")
 	}
@@ -96,14 +95,15 @@ func ZZ_C10_odd(a []int) {
 	}
 }
 
-// ZZ_C10_rewrite: a[0] = setter, a[1:] = shape. The packet is written and
+// ZZ_C10_rewrite: a[0] = setter, a[1] = length of its string argument (0
+// shrinks the frame, 2 grows it), a[2:] = shape. The packet is written and
 // rendered, then modified by one setter / adder, then written again: both
 // times exactly one frame whose size WriteTo and String() report truthfully.
 func ZZ_C10_rewrite(a []int) {
-	abs := zzGen(zzShapeOf(a[1:]))
+	abs := zzGen(zzShapeOf(a[2:]))
 	p := zzBuild(abs)
 	zzWriteCheck(p, 0)
-	if !zzApplySetter(p, abs, a[0], 1, "x.") {
+	if !zzApplySetter(p, abs, a[0], a[1], "x.") {
 		return
 	}
 	zzReach("rewrite")
@@ -119,17 +119,23 @@ func ZZ_C10_bigwrite(a []int) {
 	var ok zzSink
 	n0, err0 := p.WriteTo(&ok)
 	zzReach("bigwrite")
-	zzAssert(err0 == nil && ok.calls == 1 && int(n0) == len(ok.b), "WriteTo of a large packet: one Write, truthful count")
+	zzAssert(err0 == nil && int(n0) == len(ok.b), "WriteTo of a large packet: truthful count")
 	zzOneFrameBytes(ok.b)
 	L := len(ok.b)
 	ks := []int{L / 2, L - 2, L - 1}
 	for k := 0; k < 40 && k < L; k++ {
 		ks = append(ks, k)
 	}
+	for _, k := range []int{127, 128, 4095, 4096, 4097, 16383, 16384, 16385, 32767, 32768, 32769, 65535, 65536, 65537} {
+		if k < L {
+			ks = append(ks, k)
+		}
+	}
 	e := &zzErr{id: 3}
 	for _, k := range ks {
 		w := &zzShortW{k: k, e: e}
 		n, err := p.WriteTo(w)
+		zzAssert(w.after == 0, "WriteTo keeps writing after the writer reported an error")
 		zzAssert(err == error(e), "WriteTo does not return the writer's error")
 		zzAssert(int(n) == k, "WriteTo does not report the number of bytes the writer accepted")
 	}
